@@ -2,24 +2,28 @@
 //!
 //! Real code exercised: `TransportManagerHandle::{supported_transport, add_known_address}` (and
 //! through it `is_local_address`, `AddressStore::insert`), `TransportManager::
-//! {register_listen_address, update_address_on_dial_failure,
-//! update_address_on_connection_established, supported_transports_addresses}`,
-//! `AddressStore::addresses(limit)` (the selection made by `dial(peer)`), and the TCP / WebSocket
+//! {register_listen_address, dial, update_address_on_dial_failure,
+//! update_address_on_connection_established, supported_transports_addresses}` and the manager's
+//! event loop on the scripted transports' OpenFailure / ConnectionOpened / ConnectionEstablished
+//! events, `ConnectionLimits`, `AddressStore::addresses(limit)`, and the TCP / WebSocket
 //! `multiaddr_to_socket_address`, all on real `Multiaddr`s built from the abstract shapes.
 use crate::util::*;
 use litep2p::{
     crypto::ed25519::Keypair,
     error::{AddressError, DialError},
-    transport::verif::{
-        AddressType, DnsType, GetSocketAddr, SupportedTransport, TcpAddress, TransportManager,
-        TransportManagerBuilder, WebSocketAddress,
+    transport::{
+        verif::{
+            take_add_order, take_evicted, AddressType, DnsType, GetSocketAddr, SupportedTransport,
+            TcpAddress, TransportManager, TransportManagerBuilder, VerifScript, WebSocketAddress,
+        },
+        ConnectionLimitsConfig,
     },
-    PeerId,
+    Error, PeerId,
 };
+use tokio::runtime::Runtime;
 use multiaddr::{Multiaddr, Protocol};
 use std::{
     borrow::Cow,
-    collections::HashSet,
     net::{IpAddr, Ipv4Addr, Ipv6Addr},
     panic::{catch_unwind, AssertUnwindSafe},
     path::Path,
@@ -28,8 +32,6 @@ use std::{
 const NPEERS: u64 = 8;
 const NOTHER: u64 = 8;
 const MAXCOMPS: usize = 8;
-/// `MAX_ADDRESSES` of address.rs; only used for the guard of multi-address additions
-const CAP: usize = 64;
 const SCORE_BIAS: i64 = 1 << 31;
 
 type Comp = (u64, u64);
@@ -273,17 +275,16 @@ fn dump(s: &[(Abs, i32)], out: &mut Vec<u64>) {
     }
 }
 
-/// records of `before` that are no longer in `after`
-fn gone(before: &[(Abs, i32)], after: &[(Abs, i32)]) -> Vec<Abs> {
-    let keep: HashSet<&Abs> = after.iter().map(|(a, _)| a).collect();
-    before.iter().filter(|(a, _)| !keep.contains(a)).map(|(a, _)| a.clone()).collect()
-}
-
-fn enc_victims(v: &[Abs], out: &mut Vec<u64>) {
+fn enc_list(v: &[Abs], out: &mut Vec<u64>) {
     out.push(v.len() as u64);
     for a in v {
         enc_abs(a, out);
     }
+}
+
+/// the records evicted since the last call, as recorded by `AddressStore::insert` itself
+fn evicted(w: &World) -> Vec<Abs> {
+    take_evicted().iter().map(|a| abs_of(w, a)).collect()
 }
 
 fn enc_parsed(w: &World, r: Result<(AddressType, Option<PeerId>), AddressError>, out: &mut Vec<u64>) {
@@ -310,10 +311,74 @@ fn enc_parsed(w: &World, r: Result<(AddressType, Option<PeerId>), AddressError>,
     }
 }
 
+/// The real manager with scripted transports, and the outbound connections held open.
+struct Node {
+    manager: TransportManager,
+    tcp: Option<VerifScript>,
+    ws: Option<VerifScript>,
+    /// (filler peer, connection id) of the established outbound connections
+    held: Vec<(PeerId, usize)>,
+    fillers: u64,
+    /// max_outgoing_connections is configured
+    limited: bool,
+}
+
+impl Node {
+    fn outgoing(&self) -> usize {
+        self.manager.verif_limit_sets().1.len()
+    }
+
+    /// establish (and have accepted) an outbound connection to a fresh peer
+    fn hold_one(&mut self) -> bool {
+        let Some(script) = self.tcp.clone().or(self.ws.clone()) else {
+            return false;
+        };
+        let before = self.outgoing();
+        let peer = PeerId::random();
+        self.fillers += 1;
+        let conn = self.manager.verif_alloc_connection_id();
+        let address = Multiaddr::empty()
+            .with(Protocol::Ip4(Ipv4Addr::new(10, 200, (self.fillers >> 8) as u8, self.fillers as u8)))
+            .with(Protocol::Tcp(1))
+            .with(Protocol::P2p(peer.into()));
+        script.inject_connection_established(peer, conn, address, false);
+        self.manager.verif_drain();
+        script.resolve_accept(conn, true);
+        self.manager.verif_drain();
+        // accepted <=> the peer is now connected over this connection (with a limit configured
+        // the connection is also counted by ConnectionLimits)
+        if self.manager.verif_peer_state(&peer) == [4, conn, 0] {
+            self.held.push((peer, conn));
+            assert!(!self.limited || self.outgoing() == before + 1, "accepted but not counted");
+            true
+        } else {
+            assert!(self.outgoing() == before, "rejected but counted");
+            false
+        }
+    }
+
+    fn release_one(&mut self) {
+        if let Some((peer, conn)) = self.held.pop() {
+            self.manager.verif_report_closed(peer, conn);
+            self.manager.verif_drain();
+        }
+    }
+}
+
+fn dial_code(r: &Result<(), Error>) -> u64 {
+    match r {
+        Ok(()) => 0,
+        Err(Error::ConnectionLimit(_)) => 1,
+        Err(Error::TriedToDialSelf) => 2,
+        Err(Error::NoAddressAvailable(_)) => 3,
+        Err(_) => 99,
+    }
+}
+
 /// Runs one case against the real code. Returns the case with the implementation's choices
-/// (evicted records, order of `addresses(limit)`) filled in, and the trace.
-/// `None` if the case is not well-formed.
-fn run_case(w: &World, c: &[u64]) -> Option<(Vec<u64>, Vec<u64>)> {
+/// (HashSet insertion order, evicted records, order of `addresses(limit)`, address lists given
+/// to `open()`) filled in, and the trace. `None` if the case is not well-formed.
+fn run_case(rt: &Runtime, w: &World, c: &[u64]) -> Option<(Vec<u64>, Vec<u64>)> {
     let mut r = Reader { c, i: 0 };
     let flags: Vec<u64> = (0..5).map(|_| r.n()).collect::<Option<_>>()?;
     let (fw, fq, et, ew, eq) = (flags[0] != 0, flags[1] != 0, flags[2] != 0, flags[3] != 0, flags[4] != 0);
@@ -321,26 +386,23 @@ fn run_case(w: &World, c: &[u64]) -> Option<(Vec<u64>, Vec<u64>)> {
         return None;
     }
     let local = r.peer()?;
-    let listen = r.maddrs()?;
+    let max_out = r.n()?;
+    if max_out >= 100 {
+        return None;
+    }
     let mut case: Vec<u64> = c[..r.i].to_vec();
-    let mut supported = HashSet::new();
-    if et {
-        supported.insert(SupportedTransport::Tcp);
-    }
-    if ew {
-        supported.insert(SupportedTransport::WebSocket);
-    }
     let mut manager = TransportManagerBuilder::new()
         .with_keypair(w.keys[local as usize].clone())
-        .with_supported_transports(supported)
+        .with_connection_limits_config(ConnectionLimitsConfig::default().max_outgoing_connections(
+            if max_out == 0 { None } else { Some(max_out as usize - 1) },
+        ))
         .build();
-    for l in &listen {
-        if l.iter().any(|(t, _)| *t == 10) {
-            return None;
-        }
-        manager.register_listen_address(real_of(w, l)?);
-    }
+    let tcp = et.then(|| manager.verif_register_scripted_as(SupportedTransport::Tcp));
+    let ws = ew.then(|| manager.verif_register_scripted_as(SupportedTransport::WebSocket));
     let mut handle = manager.verif_handle();
+    let mut node = Node { manager, tcp, ws, held: Vec::new(), fillers: 0, limited: max_out != 0 };
+    let _ = take_evicted();
+    let _ = take_add_order();
 
     let nops = r.count()?;
     case.push(nops as u64);
@@ -353,21 +415,16 @@ fn run_case(w: &World, c: &[u64]) -> Option<(Vec<u64>, Vec<u64>)> {
                 let peer = r.peer()?;
                 let addrs = r.maddrs()?;
                 let _ = r.maddrs()?;
+                let _ = r.maddrs()?;
                 let real: Vec<Multiaddr> = addrs.iter().map(|a| real_of(w, a)).collect::<Option<_>>()?;
                 case.push(peer);
-                enc_victims(&addrs, &mut case);
-                let before = store_of(w, &manager, peer);
-                if addrs.len() >= 2 && CAP < before.len() + addrs.len() {
-                    enc_victims(&[], &mut case);
-                    out.push(7);
-                    dump(&before, &mut out);
-                    continue;
-                }
+                enc_list(&addrs, &mut case);
                 let n = handle.add_known_address(&w.peers[peer as usize], real.into_iter());
-                let after = store_of(w, &manager, peer);
-                enc_victims(&gone(&before, &after), &mut case);
+                let order: Vec<Abs> = take_add_order().iter().map(|a| abs_of(w, a)).collect();
+                enc_list(&order, &mut case);
+                enc_list(&evicted(w), &mut case);
                 out.extend([0, n as u64, 0]);
-                dump(&after, &mut out);
+                dump(&store_of(w, &node.manager, peer), &mut out);
             }
             1 => {
                 let a = r.maddr()?;
@@ -381,23 +438,14 @@ fn run_case(w: &World, c: &[u64]) -> Option<(Vec<u64>, Vec<u64>)> {
                 };
                 enc_abs(&a, &mut case);
                 case.push(kind);
-                let peer = match a.last() {
-                    Some((10, p)) => Some(*p),
-                    _ => None,
-                };
-                let before = peer.map(|p| store_of(w, &manager, p)).unwrap_or_default();
-                manager.verif_update_address_on_dial_failure(real, &error);
-                match peer {
-                    Some(p) => {
-                        let after = store_of(w, &manager, p);
-                        enc_victims(&gone(&before, &after), &mut case);
+                node.manager.verif_update_address_on_dial_failure(real, &error);
+                enc_list(&evicted(w), &mut case);
+                match a.last() {
+                    Some((10, p)) => {
                         out.extend([1, 1, 0]);
-                        dump(&after, &mut out);
+                        dump(&store_of(w, &node.manager, *p), &mut out);
                     }
-                    None => {
-                        enc_victims(&[], &mut case);
-                        out.extend([1, 0]);
-                    }
+                    _ => out.extend([1, 0]),
                 }
             }
             2 => {
@@ -409,20 +457,17 @@ fn run_case(w: &World, c: &[u64]) -> Option<(Vec<u64>, Vec<u64>)> {
                 case.push(peer);
                 enc_abs(&a, &mut case);
                 case.push(listener as u64);
-                let before = store_of(w, &manager, peer);
-                manager.verif_update_address_on_connection_established(
+                node.manager.verif_update_address_on_connection_established(
                     w.peers[peer as usize],
                     real,
                     listener,
                 );
+                enc_list(&evicted(w), &mut case);
                 if listener {
-                    enc_victims(&[], &mut case);
                     out.extend([1, 0]);
                 } else {
-                    let after = store_of(w, &manager, peer);
-                    enc_victims(&gone(&before, &after), &mut case);
                     out.extend([1, 1, 0]);
-                    dump(&after, &mut out);
+                    dump(&store_of(w, &node.manager, peer), &mut out);
                 }
             }
             3 => {
@@ -432,11 +477,11 @@ fn run_case(w: &World, c: &[u64]) -> Option<(Vec<u64>, Vec<u64>)> {
                 if limit >= 1000 {
                     return None;
                 }
-                let got = manager.verif_dial_addresses(&w.peers[peer as usize], limit as usize);
-                let store = store_of(w, &manager, peer);
+                let got = node.manager.verif_dial_addresses(&w.peers[peer as usize], limit as usize);
+                let store = store_of(w, &node.manager, peer);
                 let got: Vec<Abs> = got.iter().map(|a| abs_of(w, a)).collect();
                 case.extend([peer, limit]);
-                enc_victims(&got, &mut case);
+                enc_list(&got, &mut case);
                 out.extend([3, 0, got.len() as u64]);
                 for a in &got {
                     let sc = store.iter().find(|(b, _)| b == a).map(|(_, s)| *s).unwrap_or(0);
@@ -461,6 +506,118 @@ fn run_case(w: &World, c: &[u64]) -> Option<(Vec<u64>, Vec<u64>)> {
                 enc_parsed(w, TcpAddress::multiaddr_to_socket_address(&real), &mut out);
                 enc_parsed(w, WebSocketAddress::multiaddr_to_socket_address(&real), &mut out);
             }
+            5 => {
+                let a = r.maddr()?;
+                if a.iter().any(|(t, _)| *t == 10) {
+                    return None;
+                }
+                enc_abs(&a, &mut case);
+                node.manager.register_listen_address(real_of(w, &a)?);
+                out.push(5);
+            }
+            6 => {
+                let n = r.n()?;
+                if n >= 9 {
+                    return None;
+                }
+                case.push(n);
+                while node.held.len() > n as usize {
+                    node.release_one();
+                }
+                while node.held.len() < n as usize {
+                    if !node.hold_one() {
+                        break;
+                    }
+                }
+                assert!(!node.limited || node.outgoing() == node.held.len(), "limit counter differs");
+                out.extend([6, node.held.len() as u64]);
+            }
+            7 => {
+                let peer = r.peer()?;
+                let outcome = r.n()?;
+                let _ = r.maddrs()?;
+                let _ = r.maddrs()?;
+                if outcome >= 1000 {
+                    return None;
+                }
+                case.extend([peer, outcome]);
+                let before = store_of(w, &node.manager, peer);
+                // harness-side guard (DUnroutable in the model): every stored address names the
+                // peer and belongs to an installed transport, otherwise dial(peer) is not called
+                let routable = before.iter().all(|(a, _)| {
+                    let installed = match TransportManager::verif_route(&real_of(w, a).expect("stored")) {
+                        Some(SupportedTransport::Tcp) => et,
+                        Some(SupportedTransport::WebSocket) => ew,
+                        None => false,
+                    };
+                    installed && a.last() == Some(&(10, peer))
+                });
+                if !routable {
+                    enc_list(&[], &mut case);
+                    enc_list(&[], &mut case);
+                    out.extend([7, 8]);
+                    continue;
+                }
+                let res = rt.block_on(node.manager.dial(w.peers[peer as usize]));
+                let code = dial_code(&res);
+                if code != 0 {
+                    enc_list(&[], &mut case);
+                    enc_list(&[], &mut case);
+                    out.extend([7, code]);
+                    continue;
+                }
+                let mut lists: Vec<(Option<usize>, Vec<Multiaddr>)> = Vec::new();
+                for script in [&node.tcp, &node.ws] {
+                    let mut opened = script.as_ref().map(|s| s.take_opened()).unwrap_or_default();
+                    assert!(opened.len() <= 1, "one open() per transport and dial");
+                    match opened.pop() {
+                        Some((conn, l)) => lists.push((Some(conn), l)),
+                        None => lists.push((None, Vec::new())),
+                    }
+                }
+                let abs: Vec<Vec<Abs>> =
+                    lists.iter().map(|(_, l)| l.iter().map(|a| abs_of(w, a)).collect()).collect();
+                enc_list(&abs[0], &mut case);
+                enc_list(&abs[1], &mut case);
+                out.extend([7, 0]);
+                for l in &abs {
+                    out.push(l.len() as u64);
+                    for a in l {
+                        let sc = before.iter().find(|(b, _)| b == a).map(|(_, s)| *s).unwrap_or(0);
+                        enc_abs(a, &mut out);
+                        out.push((sc as i64 + SCORE_BIAS) as u64);
+                    }
+                }
+                // the outcome of the attempt
+                let scripts = [node.tcp.clone(), node.ws.clone()];
+                let total = lists[0].1.len() + lists[1].1.len();
+                assert!(total > 0, "dial() returned Ok without opening anything");
+                if outcome == 0 {
+                    for (i, (conn, l)) in lists.iter().enumerate() {
+                        if let (Some(conn), Some(script)) = (conn, &scripts[i]) {
+                            script.inject_open_failure(*conn, l.clone());
+                        }
+                    }
+                    node.manager.verif_drain();
+                } else {
+                    let j = (outcome as usize - 1) % total;
+                    let (i, pos) = if j < lists[0].1.len() { (0, j) } else { (1, j - lists[0].1.len()) };
+                    let (conn, l) = (lists[i].0.expect("opened"), &lists[i].1);
+                    let script = scripts[i].clone().expect("installed");
+                    script.inject_connection_opened_with_errors(conn, l[pos].clone(), l[..pos].to_vec());
+                    node.manager.verif_drain();
+                    script.inject_connection_established(w.peers[peer as usize], conn, l[pos].clone(), false);
+                    node.manager.verif_drain();
+                    script.resolve_accept(conn, true);
+                    node.manager.verif_drain();
+                    node.manager.verif_report_closed(w.peers[peer as usize], conn);
+                    node.manager.verif_drain();
+                }
+                let state = node.manager.verif_peer_state(&w.peers[peer as usize]);
+                assert!(state[0] == 0, "peer not disconnected after the dial episode: {state:?}");
+                assert!(evicted(w).is_empty(), "a dial outcome evicted a record");
+                dump(&store_of(w, &node.manager, peer), &mut out);
+            }
             _ => return None,
         }
     }
@@ -478,6 +635,8 @@ struct Gen<'a> {
     /// addresses already produced for a peer (candidates for dial results and rediscovery)
     known: Vec<Vec<Abs>>,
     seq: u64,
+    en_tcp: bool,
+    en_ws: bool,
 }
 
 impl<'a> Gen<'a> {
@@ -541,13 +700,22 @@ impl<'a> Gen<'a> {
             _ => (2, id),
         };
         let mut a = vec![host, (5, self.rng.range(1000, 2000))];
-        match self.rng.below(10) {
-            0 | 1 => a.push((7, 0)),
-            2 => a.push((8, 0)),
-            _ => {}
+        let ws = if self.en_tcp && self.en_ws { self.rng.chance(30) } else { self.en_ws };
+        if ws {
+            a.push(if self.rng.chance(70) { (7, 0) } else { (8, 0) });
         }
         a.push((10, peer));
         a
+    }
+
+    /// an address of `peer` that is (or was) plausibly in its store
+    fn known_or_fresh(&mut self, peer: u64) -> Abs {
+        if !self.known[peer as usize].is_empty() && self.rng.chance(85) {
+            let k = &self.known[peer as usize];
+            k[self.rng.below(k.len() as u64) as usize].clone()
+        } else {
+            self.fresh(peer)
+        }
     }
 
     fn addr(&mut self, peer: u64) -> Abs {
@@ -596,6 +764,17 @@ impl<'a> Gen<'a> {
         a
     }
 
+    fn listen_addr(&mut self) -> Abs {
+        let mut l = vec![self.host(true)];
+        match self.rng.below(10) {
+            0..=5 => l.push((5, self.port())),
+            6 | 7 => l.extend([(5, self.port()), (7, 0)]),
+            8 => l.extend([(6, self.port()), (9, 0)]),
+            _ => {}
+        }
+        l
+    }
+
     fn remember(&mut self, peer: u64, a: &Abs) {
         let k = &mut self.known[peer as usize];
         if k.len() < 200 {
@@ -606,26 +785,19 @@ impl<'a> Gen<'a> {
 
 fn gen_case(rng: &mut Rng, index: u64, thorough: bool) -> Vec<u64> {
     let ports = [30, 31, rng.range(1, 65535)];
-    let mut g = Gen { rng, ports, known: vec![Vec::new(); NPEERS as usize], seq: 0 };
-    let en_tcp = g.rng.chance(88) as u64;
-    let en_ws = g.rng.chance(65) as u64;
+    let en_tcp = rng.chance(90);
+    let en_ws = rng.chance(65);
+    let mut g = Gen { rng, ports, known: vec![Vec::new(); NPEERS as usize], seq: 0, en_tcp, en_ws };
     let local = g.rng.below(4);
-    let mut c = vec![1, 0, en_tcp, en_ws, 0, local];
-    let nlisten = g.rng.pick(&[0u64, 1, 1, 2, 3]);
-    c.push(nlisten);
-    for _ in 0..nlisten {
-        let mut l = vec![g.host(true)];
-        match g.rng.below(10) {
-            0..=5 => l.push((5, g.port())),
-            6 | 7 => l.extend([(5, g.port()), (7, 0)]),
-            8 => l.extend([(6, g.port()), (9, 0)]),
-            _ => {}
-        }
-        enc_abs(&l, &mut c);
-    }
+    // max_outgoing_connections: none, or 0..=8 (encoded +1)
+    let max_out = if g.rng.chance(30) { 0 } else { 1 + g.rng.pick(&[0u64, 1, 2, 3, 3, 5, 8, 8]) };
+    let mut c = vec![1, 0, en_tcp as u64, en_ws as u64, 0, local, max_out];
     let small = index < 30;
     // "fill" cases concentrate on one peer so that the bound of 64 is crossed
     let fill = !small && g.rng.chance(50);
+    // "clean" cases keep dial results on addresses taken from the peer's own offers, so that
+    // dial(peer) is not skipped for an unroutable store
+    let clean = g.rng.chance(60);
     let nops = if small {
         g.rng.range(6, 16)
     } else if fill {
@@ -637,48 +809,67 @@ fn gen_case(rng: &mut Rng, index: u64, thorough: bool) -> Vec<u64> {
     };
     let npeers = if fill { 2 } else { g.rng.range(1, 5) };
     let focus = g.rng.range(1, NPEERS - 1);
-    c.push(nops);
+    let nlisten = g.rng.pick(&[0u64, 1, 1, 2, 3]);
+    c.push(nops + nlisten);
+    for _ in 0..nlisten {
+        let l = g.listen_addr();
+        c.push(5);
+        enc_abs(&l, &mut c);
+    }
     for _ in 0..nops {
         let peer = if fill && g.rng.chance(90) { focus } else { (focus + g.rng.below(npeers)) % NPEERS };
         let r = g.rng.below(100);
-        let add_single = if fill { 55 } else { 40 };
+        let add_single = if fill { 40 } else { 30 };
         if r < add_single {
-            let a = if fill && g.rng.chance(70) { g.fresh(peer) } else { g.addr(peer) };
+            let a = if (fill && g.rng.chance(70)) || (clean && g.rng.chance(50)) { g.fresh(peer) } else { g.addr(peer) };
             g.remember(peer, &a);
             c.extend([0, peer, 1]);
             enc_abs(&a, &mut c);
-            c.push(0);
-        } else if r < add_single + 7 {
-            let n = g.rng.range(2, 5);
+            c.extend([0, 0]);
+        } else if r < add_single + 12 {
+            // several addresses in one call (evictions included: the insertion order is observed)
+            let n = g.rng.range(2, 6);
             c.extend([0, peer, n]);
             let mut prev: Option<Abs> = None;
             for _ in 0..n {
                 let a = match &prev {
-                    Some(p) if g.rng.chance(25) => p.clone(),
+                    Some(p) if g.rng.chance(20) => p.clone(),
+                    _ if fill && g.rng.chance(60) => g.fresh(peer),
                     _ => g.addr(peer),
                 };
                 g.remember(peer, &a);
                 enc_abs(&a, &mut c);
                 prev = Some(a);
             }
-            c.push(0);
+            c.extend([0, 0]);
         } else if r < add_single + 22 {
-            let a = g.addr(peer);
+            let a = if clean { g.known_or_fresh(peer) } else { g.addr(peer) };
             c.push(1);
             enc_abs(&a, &mut c);
             c.extend([g.rng.chance(25) as u64, 0]);
-        } else if r < add_single + 34 {
-            let a = g.addr(peer);
+        } else if r < add_single + 30 {
+            let a = if clean { g.known_or_fresh(peer) } else { g.addr(peer) };
             c.extend([2, peer]);
             enc_abs(&a, &mut c);
             c.extend([g.rng.chance(15) as u64, 0]);
-        } else if r < add_single + 44 {
+        } else if r < add_single + 36 {
             let limit = g.rng.pick(&[0u64, 1, 2, 3, 5, 8, 63, 64, 100]);
             c.extend([3, peer, limit, 0]);
-        } else {
+        } else if r < add_single + 42 {
             let a = g.addr(peer);
             c.push(4);
             enc_abs(&a, &mut c);
+        } else if r < add_single + 44 {
+            let l = g.listen_addr();
+            c.push(5);
+            enc_abs(&l, &mut c);
+        } else if r < add_single + 49 {
+            c.extend([6, g.rng.below(9)]);
+        } else {
+            // dial(peer): half of the attempts fail completely, the others succeed somewhere
+            let outcome = if g.rng.chance(50) { 0 } else { g.rng.range(1, 200) };
+            let p = if g.rng.chance(4) { g.rng.below(NPEERS) } else { peer };
+            c.extend([7, p, outcome, 0, 0]);
         }
     }
     c
@@ -695,7 +886,7 @@ pub fn main(args: &Args) {
     let w = World::new();
 
     let run = |c: &[u64]| -> (Vec<u64>, Vec<u64>) {
-        match catch_unwind(AssertUnwindSafe(|| run_case(&w, c))) {
+        match catch_unwind(AssertUnwindSafe(|| run_case(&rt, &w, c))) {
             Ok(Some((case, trace))) => (case, trace),
             Ok(None) => (c.to_vec(), vec![0]),
             Err(_) => (c.to_vec(), vec![PANIC_MARK]),
@@ -709,7 +900,7 @@ pub fn main(args: &Args) {
         stored = read_cases(Path::new(d));
     }
     for c in stored.iter() {
-        // the victims / observed orders stored with a case are replaced by this run's
+        // the implementation's choices stored with a case are replaced by this run's
         let (case, t) = run(c);
         out.emit(&case, &t);
     }
